@@ -202,9 +202,6 @@ impl Ctx {
     /// one (mode, pattern, text) triple through every in-process check
     fn triple(&mut self, m: u8, p: &[u8], t: &[u8], nontrivial: bool) {
         let rep = &mut self.rep;
-        if std::env::var_os("C36_TRACE").is_some() {
-            eprintln!("triple {m} {} {}", hex(p), hex(t));
-        }
         let nul = p.contains(&0) || t.contains(&0);
         let stars = star_groups(p);
         let g = gix_wm(m, p, t);
@@ -755,6 +752,7 @@ fn main() {
         cx.triple(r.below(4) as u8, &p, &t, true);
     }
 
+    let t0 = std::time::Instant::now();
     // 5. exhaustive small-alphabet enumeration
     let (plen, tlen) = if args.thorough { (4, 3) } else { (3, 2) };
     let pats = all_strings(b"*/a[]\\?", plen);
@@ -774,6 +772,7 @@ fn main() {
         }
     }
 
+    if std::env::var_os("C36_TRACE").is_some() { eprintln!("phase5 done {:?}", t0.elapsed()); }
     // 6. the git binary
     for t in all_strings(b"a/]", 3) {
         texts.insert(t);
@@ -786,18 +785,36 @@ fn main() {
     gp.extend(all_strings(b"*/a[]\\?", if args.thorough { 4 } else { 3 }));
     gp.extend(all_strings(b"[]!-ac:\\", if args.thorough { 4 } else { 3 }));
     // path mode, both case modes: two git processes for everything
-    let facts = gitcli::attr_facts(&gp, &texts, &mut cx.rep);
+    let (ap, at): (Vec<Vec<u8>>, Vec<Vec<u8>>) = if args.thorough {
+        (gp.clone(), texts.clone())
+    } else {
+        // quick: the corpus plus a deterministic sample
+        let keep = corpus().len();
+        let mut rest: Vec<Vec<u8>> = gp[keep..].to_vec();
+        r.shuffle(&mut rest);
+        rest.truncate(450);
+        let mut ap = gp[..keep].to_vec();
+        ap.extend(rest);
+        let mut at = texts.clone();
+        r.shuffle(&mut at);
+        at.truncate(160);
+        (ap, at)
+    };
+    let facts = gitcli::attr_facts(&ap, &at, &mut cx.rep);
+    if std::env::var_os("C36_TRACE").is_some() { eprintln!("attr done {:?} facts={}", t0.elapsed(), facts.len()); }
     judge_facts(&mut cx, facts, args.budget(20_000, 400_000) as usize);
     // all four modes through pathspecs: one process per pattern and mode
     let keep = corpus().len();
     let mut rest: Vec<Vec<u8>> = gp.split_off(keep);
     r.shuffle(&mut rest);
-    rest.truncate(args.budget(60, 3000) as usize);
+    rest.truncate(args.budget(12, 3000) as usize);
     let mut lp: Vec<Vec<u8>> = gp.into_iter().filter(|p| gitcli::pathspec_safe(p)).collect();
     r.shuffle(&mut lp);
-    lp.truncate(args.budget(60, 400) as usize);
+    lp.truncate(args.budget(12, 400) as usize);
     lp.extend(rest);
     let facts = gitcli::ls_facts(&lp, &texts, if args.thorough { &[0, 1, 2, 3] } else { &[0, 2] }, &mut cx.rep);
+    if std::env::var_os("C36_TRACE").is_some() { eprintln!("ls done {:?} facts={}", t0.elapsed(), facts.len()); }
     judge_facts(&mut cx, facts, args.budget(10_000, 300_000) as usize);
+    if std::env::var_os("C36_TRACE").is_some() { eprintln!("all done {:?}", t0.elapsed()); }
     cx.rep.finish();
 }
